@@ -288,6 +288,29 @@ def _sos_prepass(alg, pre, goals, timeout_s, seed):
   return still, done
 
 
+def _sqrt_const_facts(alg, pre, timeout_s, seed):
+  """derived facts (each proved from the precondition and ONE defining equation only): for a square-root definition  s >= 0, s*s == E  try  E == 1  and  E == 0;
+  if valid, s == 1 (resp. 0) is a consequence.  Returned as extra premises: they make normalisations of provably unit vectors disappear before nlsat sees them."""
+  import z3
+  facts = []
+  defs = [a for a in alg.assume if not isinstance(a, bool) and z3.is_eq(a) and z3.is_mul(a.arg(0)) and len(a.arg(0).children()) == 2
+          and a.arg(0).arg(0).get_id() == a.arg(0).arg(1).get_id() and z3.is_const(a.arg(0).arg(0))]
+  for d in defs[:12]:
+    sv, E = d.arg(0).arg(0), d.arg(1)
+    for k in (1, 0):
+      q = z3.Solver()
+      q.set('timeout', int(timeout_s * 1000))
+      q.set('random_seed', seed)
+      for a in pre:
+        if not isinstance(a, bool):
+          q.add(a)
+      q.add(E != k)
+      if q.check() == z3.unsat:
+        facts.append(sv == k)
+        break
+  return facts
+
+
 def smt_prove(alg: Z3Alg, pre, goal, timeout_s=30, name='', use_cvc5=True, side=False, seed=0, abstract=False, split_first=False):
   """Valid(pre & alg.assume => goal)?  pre: list of z3 bools.  goal: z3 bool or list (conjunction).
   Returns Result: proved (unsat), refuted (sat + model as witness), undecided."""
@@ -302,6 +325,8 @@ def smt_prove(alg: Z3Alg, pre, goal, timeout_s=30, name='', use_cvc5=True, side=
   if not goals:
     return Result(PROVED, 'goal is trivially true after partial evaluation / term simplification (%d clauses)' % pre_n, stats={'queries': 0, 'clauses': pre_n})
   n_abs = 0
+  if split_first:
+    pre = list(pre) + _sqrt_const_facts(alg, pre, 10, seed)
   if abstract:
     if any(isinstance(a, bool) and not a for a in pre):
       return Result(ERROR, 'precondition is the constant False (vacuous)')
